@@ -41,4 +41,38 @@ example : ∃ cnf, tseitinOrd clashForm [] [] = some cnf ∧
        .iff (.atom 10) (.and (.atom 4) (.atom 8)), clashForm] := by decide
   exact ⟨_, h1, encode_sequent_valid h1 h2 _ (by decide)⟩
 
+/-! ### replay of resolution traces by `logic.resolution` (zChaff.solve, proofrec.solve_cnf) -/
+
+/-- One `logic.resolution(pt1, pt2)` step derives a consequence: wherever both clauses hold, the
+clause of the resulting theorem holds. -/
+theorem macro_resolve_sound {c d r : Clause} {σ : Nat → Bool} (h : macroResolve c d = some r)
+    (hc : ∃ l ∈ c, σ l.1 = l.2) (hd : ∃ l ∈ d, σ l.1 = l.2) : ∃ l ∈ r, σ l.1 = l.2 :=
+  macroResolve_entails h hc hd
+
+example : macroResolve [(0, true), (1, true), (0, true)] [(2, true), (0, false)] =
+    some [(1, true), (2, true)] := by decide
+
+/-- The replay loop (one `Resolvent` line / proof list after the other, each folded with
+`logic.resolution`, the result appended): the clause list only grows, and every clause in it —
+every replayed resolvent — is entailed by the clauses the replay started from. -/
+theorem replay_sound {cnf c' : CNF} {ps : List (List Nat)} (h : zReplay cnf ps = some c') :
+    (∃ ext, c' = cnf ++ ext) ∧ ∀ d ∈ c', ∀ σ, Sat σ cnf → ∃ l ∈ d, σ l.1 = l.2 :=
+  zReplay_entailed cnf ps cnf c' (fun d hd σ hσ => hσ d hd) h
+
+/-- ... so a replay that reaches the empty clause (`contra_pt.prop == false`) shows that the
+starting clauses are unsatisfiable. -/
+theorem replay_empty_unsat {cnf : CNF} {ps : List (List Nat)} (h : proofrecCheck cnf ps = true) :
+    ¬ ∃ σ, Sat σ cnf := by
+  unfold proofrecCheck at h
+  split at h
+  · rename_i c hc
+    obtain ⟨ys, rfl⟩ := List.getLast?_eq_some_iff.mp (by simpa using h)
+    exact zReplay_unsat hc (by simp)
+  · cases h
+
+/-- the trace our own solver gives for `exUnsat`, replayed the way `proofrec.solve_cnf` does -/
+example : zReplay exUnsat [[3, 1], [2, 4, 0, 4]] = some (exUnsat ++ [[(0, false)], []]) := by decide
+example : ¬ ∃ σ, Sat σ exUnsat :=
+  replay_empty_unsat (ps := [[3, 1], [2, 4, 0, 4]]) (by decide)
+
 end Holpy.C15
